@@ -371,6 +371,156 @@ def on_firstuse(p, r, exc, acc):
         acc.sample(dict(schedule_length=len(r["trace"]), backend_calls=len(r["log"])))
 
 
+# ------------------------------------------------------------------ the Beaker plugin under two renders, line by line
+class FakeBeakerManager:
+    """stands for beaker.cache.CacheManager (handed over through cache_args['manager'], the plugin's documented hook):
+    records what each cache call receives"""
+
+    def __init__(self, log):
+        self.log = log
+        self.store = {}
+
+    def get_cache(self, name, **kw):
+        mgr = self
+
+        class C:
+            def get(self, key, createfunc=None, **args):
+                mgr.log.append((key, dict(args)))
+                if key not in mgr.store:
+                    mgr.store[key] = createfunc()
+                return mgr.store[key]
+
+            def put(self, key, value, **args):
+                mgr.store[key] = value
+
+            def remove_value(self, key, **args):
+                mgr.store.pop(key, None)
+        return C()
+
+    get_cache_region = lambda self, name, region, **kw: self.get_cache(name, **kw)
+
+
+def h_beaker(p):
+    CA, TPm = common.mako("cache", "template")
+    BC = common.mako("ext.beaker_cache")
+    LK.os, LK.Template, LK.threading = ORIG["os"], ORIG["Template"], ORIG["threading"]
+    UT.timeit, UT.operator = ORIG["timeit"], ORIG["operator"]
+    log = []
+    BC._beaker_cache = None
+    sched = Sched(p, 2, trace_codes=[(BC.BeakerCacheImpl._get_cache.__code__, "_get_cache"), (BC.BeakerCacheImpl.get_or_create.__code__, "get_or_create")])
+    t = TPm.Template(FIRSTUSE_TEMPLATE, cache_impl="beaker", cache_args={"manager": FakeBeakerManager(log)})
+    t.cache.impl                # the plugin object exists before the threads start: this harness is about its per-call state
+    ths = [sched.spawn(n, lambda: t.render()) for n in ("A", "B")]
+    dead = None
+    try:
+        sched.run()
+    except Deadlock as e:
+        dead = e
+    finally:
+        BC._beaker_cache = None
+    return dict(results=[x.result for x in ths], excs=[x.exc for x in ths], trace=list(sched.trace), deadlock=dead, log=list(log), start=t.cache.starttime)
+
+
+def on_beaker(p, r, exc, acc):
+    if exc is not None:
+        acc.candidate(kind="harness-exception", input=None, detail="%s: %s" % (type(exc).__name__, str(exc)[:300]))
+        return
+    acc.tags["asserted"] += 1
+    desc = dict(scenario="beaker", schedule=[("%s:%s" % x) for x in r["trace"]])
+    acc.vcs += 3
+    if r["deadlock"] is not None or any(e is not None for e in r["excs"]):
+        acc.candidate(kind="render-thread-failed", input=desc, detail=repr(r["excs"]))
+        return
+    if r["results"] != ["DED", "DED"]:
+        acc.candidate(kind="render-output-depends-on-interleaving", input=desc, detail="renders gave %r" % (r["results"],))
+        return
+    for key, args in r["log"]:
+        want = {"starttime": r["start"]}
+        if key == "k":
+            want["expiretime"] = 10
+        if args != want:
+            acc.candidate(kind="beaker-call-arguments", input=desc, detail="beaker get(%r) received %r, alone it receives %r" % (key, args, want))
+            return
+    if len(acc.samples) < 6:
+        acc.sample(dict(schedule_length=len(r["trace"]), beaker_calls=len(r["log"])))
+
+
+# ------------------------------------------------------------------ first use of <%namespace module=...> by two renders
+class ImportModel:
+    """Python's import as environment: the importing thread registers the module object in sys.modules BEFORE its body runs,
+    holds the module's import lock while the body runs (scheduling points inside), other threads' __import__ wait on that
+    lock, and sys.modules.get() hands out whatever is registered - finished or not"""
+
+    def __init__(self, sched):
+        import types as _t
+        self.sched = sched
+        self.modules = {}
+        self.locks = {}
+        self._t = _t
+
+    def import_(self, name, *a, **k):
+        lock = self.locks.setdefault(name, SymLock(self.sched))
+        lock.acquire()
+        try:
+            if name not in self.modules:
+                mod = self._t.ModuleType(name)
+                self.modules[name] = mod                 # visible from now on
+                self.sched.point("module body: start")
+                mod.early = lambda context: "early"
+                self.sched.point("module body: middle")
+                mod.f = lambda context: "F"
+                mod.g = lambda context: "G"
+            return self.modules[name]
+        finally:
+            lock.release()
+
+
+MODNS_TEMPLATE = '<%namespace name="m" module="c16mod"/><%namespace module="c16mod" import="*"/>${m.f()}${g()}'
+
+
+def h_modns(p):
+    RTm, TPm = common.mako("runtime", "template")
+    LK.os, LK.Template, LK.threading = ORIG["os"], ORIG["Template"], ORIG["threading"]
+    UT.timeit, UT.operator = ORIG["timeit"], ORIG["operator"]
+    sched = Sched(p, 3)
+    im = ImportModel(sched)
+    saved = (RTm.__dict__.get("__import__"), RTm.sys)
+    RTm.__dict__["__import__"] = im.import_
+    RTm.sys = types.SimpleNamespace(modules=im.modules, exc_info=saved[1].exc_info)
+    try:
+        t = TPm.Template(MODNS_TEMPLATE)
+        ths = [sched.spawn(n, lambda: t.render()) for n in ("A", "B")]
+        dead = None
+        try:
+            sched.run()
+        except Deadlock as e:
+            dead = e
+    finally:
+        if saved[0] is None:
+            RTm.__dict__.pop("__import__", None)
+        else:
+            RTm.__dict__["__import__"] = saved[0]
+        RTm.sys = saved[1]
+    return dict(results=[x.result for x in ths], excs=[x.exc for x in ths], trace=list(sched.trace), deadlock=dead)
+
+
+def on_modns(p, r, exc, acc):
+    if exc is not None:
+        acc.candidate(kind="harness-exception", input=None, detail="%s: %s" % (type(exc).__name__, str(exc)[:300]))
+        return
+    acc.tags["asserted"] += 1
+    desc = dict(scenario="module-namespace", schedule=[("%s:%s" % x) for x in r["trace"]])
+    acc.vcs += 2
+    if r["deadlock"] is not None:
+        acc.candidate(kind="deadlock", input=desc, detail="threads %r never finish" % (r["deadlock"].args[0],))
+    elif any(e is not None for e in r["excs"]):
+        acc.candidate(kind="render-thread-failed", input=desc, detail=repr(r["excs"]))
+    elif r["results"] != ["FG", "FG"]:
+        acc.candidate(kind="render-output-depends-on-interleaving", input=desc, detail="renders gave %r, alone 'FG'" % (r["results"],))
+    if len(acc.samples) < 6:
+        acc.sample(dict(schedule_length=len(r["trace"])))
+
+
 def on_render(p, r, exc, acc):
     if exc is not None:
         acc.candidate(kind="harness-exception", input=None, detail="%s: %s" % (type(exc).__name__, str(exc)[:300]))
@@ -435,6 +585,100 @@ def on_sched(p, r, exc, acc):
 
 def make_replay(c):
     i = c["input"] or {}
+
+    if i.get("scenario") == "module-namespace":
+        body = """
+# two real threads render a template whose <%namespace module=...> names a module that is not imported yet and whose body is slow
+import threading, time, tempfile, shutil
+from mako.template import Template
+d = tempfile.mkdtemp(prefix="c16modns")
+open(os.path.join(d, "c16slowmod.py"), "w").write("import time\\\\ndef early(context): return 'early'\\\\ntime.sleep(0.5)\\\\ndef f(context): return 'F'\\\\ndef g(context): return 'G'\\\\n")
+sys.path.insert(0, d)
+try:
+    t = Template('<%namespace name="m" module="c16slowmod"/><%namespace module="c16slowmod" import="*"/>${m.f()}${g()}')
+    res = {}
+    def run(name, delay):
+        time.sleep(delay)
+        try: res[name] = t.render()
+        except Exception as e: res[name] = "raised %s: %s" % (type(e).__name__, e)
+    ths = [threading.Thread(target=run, args=("A", 0)), threading.Thread(target=run, args=("B", 0.2))]
+    for x in ths: x.start()
+    for x in ths: x.join()
+finally:
+    sys.path.remove(d); sys.modules.pop("c16slowmod", None); shutil.rmtree(d, ignore_errors=True)
+print("outputs:", res)
+bad = None if res == {"A": "FG", "B": "FG"} else "a render that starts while the namespace's module is still being imported does not give the output of a lone render"
+print("VIOLATED: " + bad if bad else "HOLDS")
+sys.exit(1 if bad else 0)
+"""
+        return (c["kind"], body, ("module-namespace",))
+
+    if i.get("scenario") == "beaker":
+        body = """
+# two real threads render one Template cached through the Beaker plugin; a line tracer in the plugin hands the baton over as in the schedule found
+import threading, time
+sys.path.insert(0, "/verif")
+CASE = __CASE__
+from mako.template import Template
+from mako.ext import beaker_cache as BC
+from props.C16 import FIRSTUSE_TEMPLATE, FakeBeakerManager
+log = []
+BC._beaker_cache = None
+order = [x.split(":", 1)[0] for x in CASE["schedule"]]
+codes = {BC.BeakerCacheImpl._get_cache.__code__, BC.BeakerCacheImpl.get_or_create.__code__}
+st = {"k": 0, "diverged": False, "done": set()}
+cond = threading.Condition()
+def my_turn(name):
+    return st["diverged"] or st["k"] >= len(order) or order[st["k"]] == name or (set("AB") - {name}) <= st["done"]
+def wait_turn(name):
+    with cond:
+        t0 = time.time()
+        while not my_turn(name):
+            cond.wait(0.05)
+            if time.time() - t0 > 10: st["diverged"] = True
+def arrive(name):
+    with cond:
+        if st["k"] < len(order) and order[st["k"]] == name: st["k"] += 1
+        else: st["diverged"] = st["diverged"] or st["k"] < len(order)
+        cond.notify_all()
+    wait_turn(name)
+def tracer_for(name):
+    def tracer(frame, event, arg):
+        if frame.f_code not in codes: return None
+        def local(frame, event, arg):
+            if event == "line": arrive(name)
+            return local
+        return local
+    return tracer
+t = Template(FIRSTUSE_TEMPLATE, cache_impl="beaker", cache_args={"manager": FakeBeakerManager(log)})
+t.cache.impl
+res = {}
+def run(name):
+    wait_turn(name)
+    sys.settrace(tracer_for(name))
+    try:
+        res[name] = t.render()
+    except Exception as e:
+        res[name] = "raised %s: %s" % (type(e).__name__, e)
+    finally:
+        sys.settrace(None)
+        with cond:
+            st["done"].add(name); cond.notify_all()
+ths = [threading.Thread(target=run, args=(n,)) for n in "AB"]
+for x in ths: x.start()
+for x in ths: x.join()
+print("schedule followed:", not st["diverged"], " outputs:", res)
+bad = None
+for key, args in log:
+    want = {"starttime": t.cache.starttime}
+    if key == "k": want["expiretime"] = 10
+    print(" beaker get", key, args)
+    if args != want: bad = "beaker received %r for key %r; rendered alone it receives %r" % (args, key, want)
+if res != {"A": "DED", "B": "DED"}: bad = bad or "outputs differ from a lone render: %r" % res
+print("VIOLATED: " + bad if bad else "HOLDS")
+sys.exit(1 if bad else 0)
+""".replace("__CASE__", repr(i))
+        return (c["kind"], body, ("beaker", tuple(i["schedule"])))
 
     if i.get("scenario") == "first-use":
         body = """
@@ -664,10 +908,23 @@ def run(check, tier):
     jobs.append(("C16-firstuse", h_firstuse, on_firstuse, "two concurrent first renders of a fresh Template with cached defs: every line of "
                  "Cache.__init__ / _get_cache_kw / _ctx_get_or_create / memoized_property.__get__ is a scheduling point, at most 2 preemptions",
                  dict(points="line level inside the lazily initialising functions", preemption_bound=2), ("asserted",)))
+    jobs.append(("C16-modns", h_modns, on_modns, "two concurrent first renders of a template with <%namespace module=...>: the import is an environment model "
+                 "(module registered before its body runs, per-module import lock, scheduling points inside the body), at most 3 preemptions",
+                 dict(points="import lock operations and two points inside the module body", preemption_bound=3), ("asserted",)))
+    try:
+        import beaker  # noqa
+        jobs.append(("C16-beaker", h_beaker, on_beaker, "two concurrent renders through the Beaker plugin (cached defs with and without timeout): every line of "
+                     "BeakerCacheImpl._get_cache / get_or_create is a scheduling point, at most 2 preemptions",
+                     dict(points="line level inside the plugin", preemption_bound=2), ("asserted",)))
+    except ImportError:
+        pass
     if tier == "thorough":
         for name in SCENARIOS3:
             jobs.append(("C16-" + name, h_sched(name), on_sched, "three threads, every schedule with at most 2 preemptions: %s" % name,
                          dict(scenario=SCENARIOS3[name].__repr__(), preemption_bound=2), ("asserted",)))
+    import os
+    if os.environ.get("C16_ONLY"):          # development aid
+        jobs = [j for j in jobs if j[0].startswith(os.environ["C16_ONLY"])]
     for j in jobs:
         driver.register(j[0], j[1], j[2])
     cands = []
